@@ -98,6 +98,8 @@ def sig(variant, a, dt, lo, hi, se=True):
             r = im.calc_sig_dur(mk(), start=lo, end=hi, im=as_callable(im.calc_cav), se=se)
     except IndexError:
         return (1, 0.0, 0.0) if se_py else (1, 0.0)
+    if r is None or (se_py and (len(r) != 2 or r[0] is None or r[1] is None)):
+        return (1, 0.0, 0.0) if se_py else (1, 0.0)          # "no duration" reported without raising: validated like the IndexError
     return (0, float(r[0]), float(r[1])) if se_py else (0, float(r))
 
 
@@ -195,6 +197,9 @@ def build_traces(path, tier, seed):
             a = np.abs(a) if dt_ is np.uint8 else np.asarray(a, dtype=float)
             a = np.round(a / (np.max(np.abs(a)) + 1e-300) * top).astype(dt_)
             shape += " (%s counts)" % np.dtype(dt_).name
+        elif rng.integers(6) == 0:
+            a = a * float(10.0 ** rng.uniform(-9, -4))          # weak motion / records in small units: nothing here is "flat"
+            shape += " (small units)"
         dt = gen.dt(rng)
         variant = ["vals", "arias", "cav", "cumsq", "signed"][i % 5]
         if variant == "signed":
